@@ -194,7 +194,14 @@ fn laid_obs(prog: &AirProgram) -> String {
 }
 
 // ---- the source-text path of `aelys compile --emit-air`: lexer, parser, sema, lower, layout, print
-fn sname_src(n: u64) -> String { match n { 7001 => "Int".into(), 7002 => "Float".into(), 7003 => "Missing".into(), _ => format!("S{n}") } }
+const UNICODE_NAMES: [&str; 8] = ["Élan", "Ωmega", "Ärmel", "Öse", "Жук", "Ñandú", "Şekil", "Δelta"];
+fn sname_src(n: u64) -> String {
+    match n {
+        7001 => "Int".into(), 7002 => "Float".into(), 7003 => "Missing".into(),
+        7101..=7108 => UNICODE_NAMES[(n - 7101) as usize].into(),   // non-ASCII capitals: Latin-1, Greek, Cyrillic, Latin Extended
+        _ => format!("S{n}"),
+    }
+}
 fn src_ty(t: &T) -> Option<(String, String)> {
     // (type as written in source, type as the AIR printer shows it)
     Some(match t {
@@ -309,6 +316,34 @@ fn source_stream(rng: &mut Rng, cases: u64) {
     emit_src_at(&ab, &[0, 2], "src-nested", &all);          // ... in a function body
     emit_src_at(&ab, &[0, 3], "src-after-return", &all);    // ... in a function body after its return
     emit_src_at(&ab, &[0, 4], "src-after-return", &all);    // ... at top level after `return 0`
+    // struct names that start with a non-ASCII capital letter: embedded by value, self reference, cycle
+    for k in 0..8u64 {
+        let u = 7101 + k;
+        emit_src_at(&vec![(u, vec![T::P("I8"), T::P("I8")]), (1, vec![T::P("I8"), T::Struct(u), T::P("I16")])], &[0, 0], "src-unicode", &[0, 2]);
+        emit_src_at(&vec![(1, vec![T::P("I8"), T::Struct(u), T::P("I16")]), (u, vec![T::P("I8"), T::P("I8")])], &[2, 2], "src-unicode", &[0]);
+        emit_src_at(&vec![(u, vec![T::P("I8"), T::Struct(u)])], &[0], "src-unicode", &[0]);
+        let v = 7101 + (k + 1) % 8;
+        emit_src_at(&vec![(u, vec![T::P("I8"), T::Struct(v)]), (v, vec![T::P("I16"), T::Struct(u)])], &[0, 0], "src-unicode", &[0]);
+    }
+    // every spelling of every scalar type the front end accepts (list read from the source by the translator)
+    if let Some(f) = arg("--spellings") {
+        if let Ok(txt) = std::fs::read_to_string(&f) {
+            for line in txt.lines() {
+                let Some((sp, prim)) = line.split_once('\t') else { continue };
+                let Some(pr) = SCALARS.iter().chain(["Str"].iter()).find(|x| **x == prim).copied() else { continue };
+                let p: Prog = vec![(1, vec![T::P("U8"), T::P(pr), T::P("U8")])];
+                let shown = vec![vec!["u8".to_string(), src_ty(&T::P(pr)).unwrap().1, "u8".to_string()]];
+                let mut variants = vec![sp.to_string()];
+                let mut cs = sp.chars();
+                if let Some(c0) = cs.next() { variants.push(c0.to_uppercase().collect::<String>() + cs.as_str()); }
+                for v in variants {
+                    let src = format!("struct S1 {{ f0: u8, f1: {}, f2: u8 }}\n1\n", v);
+                    let o = run_source(&src, &p, &shown, 0);
+                    println!("QCompute {}\t{}\t{}\t{}\t{}", coq_prog(&p), o, compact_prog(&p), "src-spelling", format!("{v}:O0"));
+                }
+            }
+        }
+    }
     let cyc: Prog = vec![(1, vec![T::P("I8"), T::Struct(2)]), (2, vec![T::P("I8"), T::Struct(1)])];
     emit_src_at(&cyc, &[0, 4], "src-cycle", &all);          // the cycle is closed by a declaration after `return 0`
     emit_src_at(&cyc, &[2, 3], "src-cycle", &all);
@@ -319,6 +354,7 @@ fn source_stream(rng: &mut Rng, cases: u64) {
         let n = 1 + rng.below(8) as usize;
         let mut names: Vec<u64> = (1..=n as u64).collect();
         shuffle(rng, &mut names);
+        if rng.chance(1, 3) { for nm in names.iter_mut() { if rng.chance(1, 2) { *nm += 7100; } } }   // n <= 8: distinct non-ASCII names
         let mut p: Prog = Vec::new();
         for i in 0..n {
             let nf = 1 + rng.below(6) as usize;
